@@ -113,8 +113,8 @@ Section Gov.
     mkP (p_hdr p) s r (p_ballots p) (p_approve p) (p_reject p) (p_super p) (p_avail p) (p_thresh p) (p_avail p) (p_manage p ++ [s]).
   Definition with_ballot (p : proposal) (v : N) (b : bool) (w th : N) : proposal :=
     mkP (p_hdr p) (p_status p) (p_reason p) ((v, b) :: p_ballots p)
-        (if b then wrap64 (p_approve p + 1) else p_approve p)
-        (if b then p_reject p else wrap64 (p_reject p + 1))
+        (if b then p_approve p + 1 else p_approve p)
+        (if b then p_reject p else p_reject p + 1)
         (p_super p || (w =? gov_super_weight)) (p_avail p) th (p_cavail p) (p_manage p).
 
   Definition get_prop st (i : nat) : option proposal := nth_error (s_props st) i.
@@ -366,8 +366,8 @@ Section Gov.
         else if 2 <=? b then Fail 6
         else
           let ap := b =? 1 in
-          let a' := if ap then wrap64 (p_approve p + 1) else p_approve p in
-          let r' := if ap then p_reject p else wrap64 (p_reject p + 1) in
+          let a' := if ap then p_approve p + 1 else p_approve p in
+          let r' := if ap then p_reject p else p_reject p + 1 in
           match threshold (sem (h_expr h)) a' r' (h_total h) with
           | None => Fail 9
           | Some th =>
@@ -709,7 +709,8 @@ Section Gov.
                end)
             (combine (seq 0 (List.length (s_props b))) (s_props b)).
 
-  (** Clause numbers (returned as the detail of a failing verdict):
+  (** Clauses of the property for one transaction: [a] state before, [o] the transaction, [rc]
+      its result code, [b] state after.  Numbers are returned as the detail of a failing verdict:
       1 a finished proposal changed            2 tally / one vote per elector broken
       3 a recorded ballot was dropped/changed  4 approved without the expression holding
       5 rejected while approval was reachable  6 special proposal concluded without super-admin vote
@@ -717,30 +718,47 @@ Section Gov.
       8 governed object changed without a proposal on it being created or ended
       9 header of an existing proposal changed / electorate of a new one is not the available admins
       10 electors counted as available do not cover the voters + available non-voters *)
+  Definition olds (a b : state) := combine (s_props a) (s_props b).
+  Definition news (a b : state) := skipn (List.length (s_props a)) (s_props b).
+
+  Definition cl_final (a b : state) : bool :=
+    (List.length (s_props a) <=? List.length (s_props b))%nat &&
+    forallb (fun pq : proposal * proposal => is_open (fst pq) || final_eqb (fst pq) (snd pq)) (olds a b).
+  Definition cl_tally (b : state) : bool := forallb tally_ok (s_props b).
+  Definition cl_ballots (a b : state) : bool :=
+    forallb (fun pq : proposal * proposal => ballots_incl (p_ballots (fst pq)) (p_ballots (snd pq))) (olds a b).
+  Definition cl_approved (b : state) : bool := forallb approved_sound (s_props b).
+  Definition cl_rejected (a b : state) : bool :=
+    forallb (fun pq : proposal * proposal => negb (is_open (fst pq)) || rejected_sound (snd pq) (p_avail (snd pq))) (olds a b)
+    && forallb (fun q => rejected_sound q (p_avail q)) (news a b).
+  Definition cl_special (b : state) : bool := forallb special_ok (s_props b).
+  Definition cl_refusal (accts nodes : list N) (a : state) (o : op) (rc : N) (b : state) : bool :=
+    ((rc =? 0) || obs_eqb accts nodes a b) &&
+    match o with OVote c i v => negb (vote_must_fail a c i v) || negb (rc =? 0) | _ => true end.
+  Definition cl_object (accts nodes : list N) (a b : state) : bool :=
+    forallb (fun x => option_eqb seqb (obj_status a x) (obj_status b x) || touched a b x) (accts ++ nodes ++ [400; 401; 402]).
+  Definition cl_header (a b : state) : bool :=
+    forallb (fun pq : proposal * proposal => hdr_eqb (p_hdr (fst pq)) (p_hdr (snd pq))) (olds a b) &&
+    forallb (fun q : proposal =>
+               let el := electorate a in
+               forallb (fun e : N * N => existsb (fun f : N * N => (fst e =? fst f) && (snd e =? snd f)) el) (h_elect (p_hdr q)) &&
+               Nat.eqb (List.length (h_elect (p_hdr q))) (List.length el)) (news a b).
+  Definition cl_avail (a b : state) : bool :=
+    forallb (fun q => negb (is_open q) || avail_ok b q) (s_props b) &&
+    forallb (fun pq : proposal * proposal =>
+               negb (is_open (fst pq) && (p_status (snd pq) =? ST_REJECTED) && by_tally (snd pq)) || avail_ok b (snd pq)) (olds a b).
+
   Definition step_ok (accts nodes : list N) (a : state) (o : op) (rc : N) (b : state) : N :=
-    let olds := combine (s_props a) (s_props b) in
-    let news := skipn (List.length (s_props a)) (s_props b) in
-    if negb (List.length (s_props a) <=? List.length (s_props b))%nat then 1
-    else if negb (forallb (fun pq : proposal * proposal => is_open (fst pq) || final_eqb (fst pq) (snd pq)) olds) then 1
-    else if negb (forallb tally_ok (s_props b)) then 2
-    else if negb (forallb (fun pq : proposal * proposal => ballots_incl (p_ballots (fst pq)) (p_ballots (snd pq))) olds) then 3
-    else if negb (forallb approved_sound (s_props b)) then 4
-    else if negb (forallb (fun pq : proposal * proposal =>
-                             negb (is_open (fst pq)) || rejected_sound (snd pq) (p_avail (snd pq))) olds
-                  && forallb (fun q => rejected_sound q (p_avail q)) news) then 5
-    else if negb (forallb special_ok (s_props b)) then 6
-    else if negb ((rc =? 0) || obs_eqb accts nodes a b) then 7
-    else if negb (match o with OVote c i v => negb (vote_must_fail a c i v) || negb (rc =? 0) | _ => true end) then 7
-    else if negb (forallb (fun x => option_eqb seqb (obj_status a x) (obj_status b x) || touched a b x)
-                          (accts ++ nodes ++ [400; 401; 402])) then 8
-    else if negb (forallb (fun pq : proposal * proposal => hdr_eqb (p_hdr (fst pq)) (p_hdr (snd pq))) olds) then 9
-    else if negb (forallb (fun q : proposal =>
-                             let el := electorate a in
-                             forallb (fun e : N * N => existsb (fun f : N * N => (fst e =? fst f) && (snd e =? snd f)) el) (h_elect (p_hdr q)) &&
-                             Nat.eqb (List.length (h_elect (p_hdr q))) (List.length el)) news) then 9
-    else if negb (forallb (fun q => negb (is_open q) || avail_ok b q) (s_props b)
-                  && forallb (fun pq : proposal * proposal =>
-                                negb (is_open (fst pq) && (p_status (snd pq) =? ST_REJECTED) && by_tally (snd pq)) || avail_ok b (snd pq)) olds) then 10
+    if negb (cl_final a b) then 1
+    else if negb (cl_tally b) then 2
+    else if negb (cl_ballots a b) then 3
+    else if negb (cl_approved b) then 4
+    else if negb (cl_rejected a b) then 5
+    else if negb (cl_special b) then 6
+    else if negb (cl_refusal accts nodes a o rc b) then 7
+    else if negb (cl_object accts nodes a b) then 8
+    else if negb (cl_header a b) then 9
+    else if negb (cl_avail a b) then 10
     else 0.
 
   (** trace = list of (op, rc, state after); returns 0 or step * 16 + clause *)
@@ -799,3 +817,31 @@ Section Gov.
                    end
        end) cfgs 1.
 End Gov.
+
+(** * Running instance: expressions are indexes into a pool of deep-embedded expressions;
+      index 0 must be the default expression [a > 0.5 * t] *)
+Definition pool_sem (pool : list bexp) (i : N) (a r t : N) : bool :=
+  qsem (nth (N.to_nat i) pool (BLit false)) a r t.
+
+(** one case of the check: returns (property code on the implementation trace,
+    0 if some allowed configuration of the model reproduces the trace | 1 + index of the first
+    difference under the first configuration | 1000 outside the model's domain | 999 genesis differs) *)
+Definition check_case (pool : list bexp) (accts nodes weights : list N)
+           (strat : list (N * (bool * N * string))) (init : @state N)
+           (tr : list (@op N * N * @state N)) (cfgs : list N) : N * N :=
+  let sem := pool_sem pool in
+  let st0 := init_state weights strat in
+  let p := trace_ok N.eqb sem accts nodes init tr 0 in
+  let ops := map (fun x : @op N * N * @state N => fst (fst x)) tr in
+  let m :=
+      if negb (forallb bwf pool) then 1000
+      else if negb (obs_eqb N.eqb accts nodes st0 init) then 999
+      else
+        let runs := map (fun c => run_all N.eqb sem 0 (defects_of_bits c) st0 ops) cfgs in
+        if existsb (fun m => match trace_diff N.eqb accts nodes m tr 0 with None => true | Some _ => false end) runs then 0
+        else match runs with
+             | [] => 1000
+             | m :: _ => if has_domain_err m then 1000
+                         else match trace_diff N.eqb accts nodes m tr 0 with Some i => 1 + i | None => 0 end
+             end in
+  (p, m).
